@@ -257,7 +257,13 @@ func (b AcraBlock) EncryptedDataEncryptionKeyLength() int {
 
 // Decrypt AcraBlock using all keys sequentially until successful decryption and context
 func (b AcraBlock) Decrypt(keys [][]byte, context []byte) ([]byte, error) {
+	if len(b) < AcraBlockMinSize {
+		return nil, ErrInvalidAcraBlock
+	}
 	keySize := b.EncryptedDataEncryptionKeyLength()
+	if len(b) < AcraBlockMinSize+keySize {
+		return nil, ErrInvalidAcraBlock
+	}
 	encryptedKey := b[EncryptedDataEncryptionKeyPosition : EncryptedDataEncryptionKeyPosition+keySize]
 	encryptedData := b[AcraBlockMinSize+keySize:]
 	keyEncryptionKeyBackend := b.KeyEncryptionBackend()
@@ -307,6 +313,11 @@ func ExtractAcraBlockFromData(data []byte) (int, AcraBlock, error) {
 		validMask <<= 1
 	}
 	restLength := binary.LittleEndian.Uint64(data[RestAcraBlockLengthPosition : RestAcraBlockLengthPosition+RestAcraBlockLengthSize])
+	// rest part should contain at least the fixed header and fit into the data, otherwise restLength+TagBeginSize
+	// may overflow or point outside of the data
+	if restLength < AcraBlockMinSize-TagBeginSize || restLength > uint64(len(data)-TagBeginSize) {
+		return 0, nil, ErrInvalidAcraBlock
+	}
 	if len(data) >= int(restLength+TagBeginSize) {
 		validMask <<= 1
 	}
